@@ -125,6 +125,18 @@ fn main() {
         }
         return;
     }
+    if args.len() >= 3 && args[1] == "--vars" {
+        // the variables (name, lo, hi) a program declares, from one native run with defaulted inputs
+        std::panic::set_hook(Box::new(|_| {}));
+        if let Some(p) = progs.iter().find(|p| p.name == args[2]) {
+            if let Some(f) = p.run_f64 {
+                FRUN.with(|r| *r.borrow_mut() = Default::default());
+                let _ = std::panic::catch_unwind(f);
+                FRUN.with(|r| for (n, lo, hi) in &r.borrow().declared { println!("VAR {} {:e} {:e}", n, lo, hi); });
+            }
+        }
+        return;
+    }
     if args.len() >= 4 && args[1] == "--eval-batch" {
         // one input per stdin line ("name=value name=value ..."); prints "R <line index> <violated ensures|->" (replay side, real code)
         std::panic::set_hook(Box::new(|_| {}));
